@@ -245,6 +245,7 @@ func (fv *FuncVC) havocAllHeaps(st *State) {
 	st.epoch = fv.epochCtr
 	st.heaps = map[string]string{}
 	newAlloc := fv.getHeap(st, "alloc")
+	fv.addFact(st, "(not (select "+newAlloc+" nil))")
 	fv.addFact(st, fmt.Sprintf("(forall ((r Ref)) (! (=> (select %s r) (select %s r)) :pattern ((select %s r))))", oldAlloc, newAlloc, oldAlloc))
 }
 
@@ -254,6 +255,7 @@ func (fv *FuncVC) havocHeap(st *State, name string) {
 		oldAlloc := fv.getHeap(st, "alloc")
 		n := fv.th.freshConst(sanitize(name), fv.heapSort[name])
 		st.heaps[name] = n
+		fv.addFact(st, "(not (select "+n+" nil))")
 		fv.addFact(st, fmt.Sprintf("(forall ((r Ref)) (! (=> (select %s r) (select %s r)) :pattern ((select %s r))))", oldAlloc, n, oldAlloc))
 		return
 	}
